@@ -36,6 +36,7 @@ Inductive c09_case :=
 | CRead (fl : ovf_file Q) (side : option sidecar) (obs : option fobs)
 | CRound (f : fin) (rp : repr) (extend : bool) (obs : option fobs).
 
+Local Notation "a ==> b" := (implb a b) (at level 55, right associativity).
 Definition wrQ (rp : repr) (x : Q) : Q := match rp with RBin4 => round32 x | _ => x end.
 Definition rdQ (rp : repr) (x : Q) : Q := x.
 
@@ -85,6 +86,7 @@ Definition file_match (exact : bool) (mf ofl : ovf_file Q) : bool :=
   repr_eqb (f_rep mf) (f_rep ofl) &&
   opt_eqb Qeq_bool (f_check mf) (f_check ofl) &&
   vals_match (f_rep mf) (f_payload mf) (f_payload ofl) &&
+  (repr_eqb (f_rep mf) RTxt ==> (f_cols mf =? f_cols ofl)%nat) &&
   Bool.eqb (f_tail_ok mf) (f_tail_ok ofl).
 
 Definition field_match (rp : repr) (mf : ofield Q) (o : fobs) : bool :=
